@@ -109,9 +109,23 @@ fn random_numbers(src: &mut Src, obs: &mut Obs) -> Res {
     let elems: Vec<J> = vals.iter().map(|x| if src.bool() { J::Int(*x) } else { J::Float(*x as f64) }).collect();
     let doc = J::Arr(elems);
     let op = *src.pick(&Op::ALL);
-    let lit = Cmpable::Lit(Lit::Num(num_lit_int(a)));
     let cur = Cmpable::Sing(Sing { abs: false, steps: vec![] });
-    let e = if src.bool() { Expr::Cmp(Box::new(cur), op, Box::new(lit)) } else { Expr::Cmp(Box::new(lit), op, Box::new(cur)) };
+    let one = |src: &mut Src, a: i64, op: Op| {
+        let lit = Cmpable::Lit(Lit::Num(num_lit_int(a)));
+        if src.bool() { Expr::Cmp(Box::new(cur.clone()), op, Box::new(lit)) } else { Expr::Cmp(Box::new(lit), op, Box::new(cur.clone())) }
+    };
+    // a single comparison, or a chain of alternatives / conjuncts over the same subject
+    let e = match src.below(4) {
+        0 | 1 => one(src, a, op),
+        2 => {
+            let n = 2 + src.below(3);
+            Expr::Or((0..n).map(|_| { let x = *src.pick(&vals); one(src, x, Op::Eq) }).collect())
+        }
+        _ => {
+            let n = 2 + src.below(2);
+            Expr::And((0..n).map(|_| { let x = *src.pick(&vals); let o = *src.pick(&[Op::Ne, Op::Ge, Op::Le]); one(src, x, o) }).collect())
+        }
+    };
     let q = Query { abs: true, segs: vec![Seg { desc: false, sels: vec![Sel::Filter(e)], dot: false }] };
     obs.label("number-spellings");
     check(src, &q, &doc, 6, &SpellCfg { escapes: false }, obs)
